@@ -137,12 +137,14 @@ def check_mol(case):
     # rename-only twin (same atom order, bonds, endpoints): charges may not depend on names AT ALL
     names3 = _rename_only(n, p)
     try:
-        mol3 = _read(molgen.to_mol2(m, names3))
+        layout = ["plain", "crlf", "tabs", "blank-atom", "blank-bond", "trailing"][p.pick(6)]
+        res.label(f"layout={layout}")
+        mol3 = _read(molgen.relayout(molgen.to_mol2(m, names3), layout))
         mol3.assign_parameters()
         q3 = [mol3.atoms[names3[i]].charge for i in range(n)]
         if max(abs(a - b) for a, b in zip(q, q3)) > 1e-12:
             i = max(range(n), key=lambda k: abs(q[k] - q3[k]))
-            res.bad("C16:mol:name-dependent", f"only the atom names differ, yet atom #{i} ({m.atoms[i]['type']}) has charge "
+            res.bad("C16:mol:name-dependent", f"only the atom names and the file layout ({layout}) differ, yet atom #{i} ({m.atoms[i]['type']}) has charge "
                     f"{q[i]:.4f} vs {q3[i]:.4f}; features {sorted(m.features)}")  # fmt: skip
     except Exception as e:  # noqa: BLE001
         res.bad(f"C16:mol:twin-exception:{type(e).__name__}", f"renamed twin rejected: {e!r}")
@@ -258,12 +260,14 @@ def check_repo(case):
     names3 = _rename_only(n, p)
     ident = list(range(n))
     try:
-        mol3 = _read(_write_mol2(atoms, bonds, ident, list(range(len(bonds))), [0], names3))
+        layout = ["plain", "crlf", "tabs", "blank-atom", "blank-bond", "trailing"][p.pick(6)]
+        res.label(f"layout={layout}")
+        mol3 = _read(molgen.relayout(_write_mol2(atoms, bonds, ident, list(range(len(bonds))), [0], names3), layout))
         mol3.assign_parameters()
         q3 = [mol3.atoms[names3[i]].charge for i in range(n)]
         if max(abs(a - b) for a, b in zip(q, q3)) > 1e-12:
             i = max(range(n), key=lambda k: abs(q[k] - q3[k]))
-            res.bad("C16:repo:name-dependent", f"{path.name}: only the atom names differ, yet atom #{i} ({names[i]} -> {names3[i]}) "
+            res.bad("C16:repo:name-dependent", f"{path.name}: only the atom names and the file layout ({layout}) differ, yet atom #{i} ({names[i]} -> {names3[i]}) "
                     f"has charge {q[i]:.4f} vs {q3[i]:.4f}")  # fmt: skip
     except Exception as e:  # noqa: BLE001
         res.bad(f"C16:repo:twin-exception:{type(e).__name__}", f"{path.name} renamed: {e!r}")
@@ -282,6 +286,7 @@ def complex_case(draw):
                 nwat=draw(st.integers(0, 3)), other=draw(st.booleans()), ff=draw(st.sampled_from(["AMBER", "PARSE", "CHARMM", "SWANSON"])),
                 lig_alt=draw(st.sampled_from(["none", "none", "some", "all"])),
                 copies=draw(st.sampled_from([1, 1, 2])),  # the same ligand bound twice (e.g. once per protomer)
+                serials=draw(st.sampled_from(["continue", "continue", "restart"])),  # ligand block pasted in: serials from 1 again
                 tit=draw(st.sampled_from([None, None, 3.0, 7.0, 11.0])),  # titration route (hydrogens stripped and rebuilt)
                 lig_first=draw(st.booleans()), opts=draw(st.sampled_from([[], ["--noopt"], ["--nodebump"], ["--whitespace"]])))  # fmt: skip
 
@@ -331,6 +336,11 @@ def check_complex(case):
     other = []
     if case["other"]:
         other = [dict(name="ZN9", resn="ZN9", chain="M", seq=700, xyz=np.array([60.0, 10.0, 10.0]), rec="HETATM", group=("other", 0))]
+    if case.get("serials") == "restart":
+        # serial numbers are labels of the input file, not identities: the ligand block restarts at 1
+        for k, rec in enumerate(lig_recs):
+            rec["serial"] = k + 1
+        res.label("ligand-serials-restart")
     blocks = [lig_recs, wat_recs, other] if case["lig_first"] else [wat_recs, other, lig_recs]
     for blk in blocks:
         for rec in blk:
